@@ -60,6 +60,9 @@ type Finding struct {
 
 // LoadFindings reads the committed known-findings file (never written at run time).
 func LoadFindings(prop string, also ...string) []*Finding {
+	if os.Getenv("VERIF_IGNORE_KNOWN") != "" {
+		return nil // debugging aid: show every violation, listed or not (never set by a registered command)
+	}
 	data, err := os.ReadFile(filepath.Join(Root(), "known_findings.txt"))
 	if err != nil {
 		return nil
